@@ -1,5 +1,5 @@
 (* C17 — property theorems only. Each is closed by [exact] of a lemma proved in C17/Proofs.v. *)
-From Coq Require Import List Arith ZArith QArith Lia.
+From Coq Require Import List Arith ZArith QArith Lia Permutation.
 Import ListNotations.
 From AgileV Require Import C17.Model C17.Proofs.
 Local Open Scope Q_scope.
@@ -163,6 +163,41 @@ Theorem minibatch_rows_aligned : forall idx a b c d e f,
 Proof. exact minibatch_rows_lemma. Qed.
 Print Assumptions minibatch_rows_aligned.
 
+(* Inside a minibatch: position j of the six tensors the loss works on belongs to row idx[j]; normalising the advantages
+   (shift and scale by numbers m, s that depend on the whole minibatch — any functions) changes the value, not the row. *)
+Theorem minibatch_body_rows_aligned : forall m s idx a b c d e f j,
+  length b = length a -> length c = length a -> length d = length a -> length e = length a -> length f = length a ->
+  Forall (fun i => (i < length a)%nat) idx -> (j < length idx)%nat ->
+  let i := nth j idx 0%nat in
+  let batch_advs := gather 0 idx d in
+  nth j (minibatch_body m s idx a b c d e f) dflt6 =
+    (nth i a 0%Z, nth i b 0%Z, nth i c 0%Z, (nth i d 0 - m batch_advs) * s batch_advs, nth i e 0, nth i f 0).
+Proof. exact minibatch_body_lemma. Qed.
+Print Assumptions minibatch_body_rows_aligned.
+
+(* The epoch / minibatch loop: whatever the shuffles (any permutations p_k, applied in place one after the other) and
+   whatever batch_size >= 1 (dividing the number of rows or not), every epoch hands every row index to exactly one
+   minibatch (the minibatches of an epoch, concatenated, are a permutation of 0..N-1), no minibatch is empty or larger
+   than batch_size, there is one epoch per shuffle.  With minibatch_rows_aligned: every estimate, old log-prob and old
+   value is used, in every epoch, exactly once and together with its own observation and action. *)
+Theorem every_epoch_visits_every_row_once : forall N B perms, (1 <= B)%nat ->
+  Forall (fun p => Permutation p (seq 0 N)) perms ->
+  Forall (fun ep => Permutation (concat ep) (seq 0 N) /\ Forall (fun c => (1 <= length c <= B)%nat) ep)
+         (learn_minibatch_idxs N B perms).
+Proof. exact learn_minibatches_lemma. Qed.
+Print Assumptions every_epoch_visits_every_row_once.
+
+Theorem one_epoch_per_shuffle : forall N B perms, length (learn_minibatch_idxs N B perms) = length perms.
+Proof. exact learn_minibatches_count. Qed.
+Print Assumptions one_epoch_per_shuffle.
+
+(* range(0, N, batch_size) slicing: the slices concatenate to the array, all but the last have batch_size entries *)
+Theorem minibatch_slices : forall B l, (1 <= B)%nat ->
+  concat (chunks B l) = l /\
+  forall i, (S i < length (chunks B l))%nat -> length (nth i (chunks B l) []) = B.
+Proof. exact minibatch_slices_lemma. Qed.
+Print Assumptions minibatch_slices.
+
 (* The training loops record, at step t, the done flag returned by the previous step (zeros at the start of
    a rollout) and pass the last one as next_done; so the flag d_{t+1} of the recursion is the flag the
    environment returned for step t: "the episode ended with step t, a new one starts at t+1". *)
@@ -242,6 +277,11 @@ Proof.
   apply (episode_end_cuts_estimates (1#2) (3#4) [1; 2; 3] [4; 5; 6] [0; 1; 0] 7 [1; 2; 9; 9; 9] [4; 5; 8; 8; 8] [0; 1; 1; 0; 1] 70 1);
     try reflexivity; cbn; lia.
 Qed.
+
+Example minibatches_example :
+  (* 5 rows, batch_size 2, two epochs; the second shuffle acts on the already shuffled array *)
+  learn_minibatch_idxs 5 2 [[4; 0; 3; 1; 2]; [1; 0; 2; 4; 3]]%nat = [[[4; 0]; [3; 1]; [2]]; [[0; 4]; [3; 2]; [1]]]%nat.
+Proof. reflexivity. Qed.
 
 Example ippo_rows_example :
   (* T = 2, two agents, one env: rows are (agent 0, t 0), (agent 0, t 1), (agent 1, t 0), (agent 1, t 1) *)
